@@ -608,7 +608,7 @@ class Runner:
         lt.cmd = label
         before = self.snapshot()
         self.cmd_steps[i] = [det.step, None]
-        self.cmd_clock[i] = [det.clock, None]
+        self.cmd_clock[i] = [det.clock, None, det.clock - det.jump_total, None]
         H.append(("cmd", i, name, "invoke", lt.id, before))
         det.eager = None
         if name in ("start", "step", "run_up_to", "run_up_to_incl") and lt is det.driver:
@@ -628,6 +628,7 @@ class Runner:
             lt.cmd = prev
         self.cmd_steps[i][1] = det.step
         self.cmd_clock[i][1] = det.clock
+        self.cmd_clock[i][3] = det.clock - det.jump_total
         H.append(("cmd", i, name, "return", lt.id, out, self.snapshot()))
         return out
 
@@ -656,7 +657,7 @@ class Runner:
         lt.cmd = "%s#%d@%s" % (name, i, where)
         before = self.snapshot()
         self.cmd_steps[i] = [det.step, None]
-        self.cmd_clock[i] = [det.clock, None]
+        self.cmd_clock[i] = [det.clock, None, det.clock - det.jump_total, None]
         H.append(("cmd", i, name, "invoke", lt.id, before, where, prev))
         try:
             self._call(list(cmd))
@@ -672,6 +673,7 @@ class Runner:
             lt.cmd = prev
         self.cmd_steps[i][1] = det.step
         self.cmd_clock[i][1] = det.clock
+        self.cmd_clock[i][3] = det.clock - det.jump_total
         H.append(("cmd", i, name, "return", lt.id, out, self.snapshot(),
                   where))
         return out
